@@ -47,6 +47,8 @@ Definition window (c : pcfg) (now_ms : Z) : Z :=
 
 Record pstate := mkP { pstore : rstate; pdown : bool }.
 
+Inductive pfault := FCtx | FReply (r : reply).
+
 Inductive pop :=
 | PTake (key : bulk) (brk : bool)
       (* some caller's TakeCtx on keyPrefix+key; [brk] = go-zero's redis circuit breaker let the
@@ -54,7 +56,10 @@ Inductive pop :=
 | PAdvance (ms : Z)
 | PDown | PUp                   (* the store becomes unreachable / reachable *)
 | PPoke (key : bulk) (v : bulk) (* a foreign client overwrites the counter (no TTL) *)
-| PTtl (key : bulk).            (* observe the key's remaining time to live *)
+| PTtl (key : bulk)             (* observe the key's remaining time to live *)
+| PTakeF (key : bulk) (f : pfault).
+      (* FAULT: a TakeCtx whose context is already done (the command is never sent), or whose
+         command is answered [r] by a faulty store / connection instead of being executed *)
 
 Inductive pobs :=
 | PAns (c : pcode) (error : bool)
@@ -67,8 +72,23 @@ Definition take (c : pcfg) (key : bulk) (brk : bool) (s : pstate) : pstate * (pc
                           [BInt (pquota c); BInt (window c (rnow (pstore s)))] (pstore s) in
        (mkP st' false, period_reply r).
 
+(* what TakeCtx answers when the command is not executed *)
+Definition pfault_ans (f : pfault) : pobs :=
+  match f with
+  | FCtx => PAns Unknown true                         (* ctx.Err() *)
+  | FReply r => PAns (fst (period_reply r)) (snd (period_reply r))
+  end.
+
+(* a forged reply that the wrapper cannot tell from a verdict of the script *)
+Definition pforged (f : pfault) : bool :=
+  match f with
+  | FReply (RInt n) => (0 <=? n) && (n <=? 2)
+  | _ => false
+  end.
+
 Definition pstep (c : pcfg) (s : pstate) (o : pop) : pstate * pobs :=
   match o with
+  | PTakeF key f => (s, pfault_ans f)
   | PTake key brk => let '(s', (code, e)) := take c key brk s in (s', PAns code e)
   | PAdvance ms => (mkP (advance (pstore s) ms) (pdown s), PNone)
   | PDown => (mkP (pstore s) true, PNone)
@@ -127,6 +147,7 @@ Definition sp_with (a : pspec) (cells : list (bulk * pcell)) : pspec :=
 (* for windows >= 1 s *)
 Definition sp_pstep (c : pcfg) (a : pspec) (o : pop) : pspec * pobs :=
   match o with
+  | PTakeF key f => (a, pfault_ans f)
   | PTake key brk =>
     if (sp_down a || negb brk)%bool then (a, PAns Unknown true) else
     let fresh_until := Some (sp_now a + window c (sp_now a) * 1000) in
@@ -175,7 +196,12 @@ Inductive top :=
          [brk] = the redis circuit breaker lets the command through if one is sent *)
 | TAdvance (ms : Z)
 | TDown | TUp
-| TPing (i : nat).     (* instance i's monitor goroutine gets its next 100 ms tick *)
+| TPing (i : nat)      (* instance i's monitor goroutine gets its next 100 ms tick *)
+| TAllowF (i : nat) (now_ms : Z) (n : Z) (rescue : bool) (r : reply)
+      (* FAULT: if the call sends its command, a faulty store / connection answers [r] instead of
+         executing the script *)
+| TAllowC (i : nat) (now_ms : Z) (n : Z) (rescue : bool).
+      (* AllowNCtx with a context that is already cancelled: the command is never sent *)
 
 Inductive tobs :=
 | TR (granted : bool) (alive_after : bool) (by_script : bool)
@@ -186,6 +212,15 @@ Definition start_monitor (t : tinst) : tinst :=
 
 Definition unix_s (now_ms : Z) : Z := now_ms / 1000.      (* now.Unix() *)
 
+(* reserveN after the command was answered [r] *)
+Definition token_reply (t : tinst) (r : reply) (rescue : bool) : tinst * tobs :=
+  match r with
+  | RNil => (t, TR false true true)             (* errors.Is(err, redis.Nil) *)
+  | RInt code => (t, TR (code =? 1) true true)
+  | RErr _ | RBulk _ | RStatus _ =>              (* error, or resp.(int64) fails *)
+    let t' := start_monitor t in (t', TR rescue (alive t') false)
+  end.
+
 (* reserveN; [down] = the command would not reach Redis (store unreachable or breaker open) *)
 Definition reserve (c : tcfg) (t : tinst) (now_ms n : Z) (rescue : bool) (st : rstate) (down : bool)
   : rstate * tinst * tobs :=
@@ -195,12 +230,7 @@ Definition reserve (c : tcfg) (t : tinst) (now_ms n : Z) (rescue : bool) (st : r
   else
     let '(r, st') := eval Lua_token.script [ktokens c; kts c]
                        [BInt (rate c); BInt (burst c); BInt (unix_s now_ms); BInt n] st in
-    match r with
-    | RNil => (st', t, TR false true true)             (* errors.Is(err, redis.Nil) *)
-    | RInt code => (st', t, TR (code =? 1) true true)
-    | RErr _ | RBulk _ | RStatus _ =>                   (* error, or resp.(int64) fails *)
-      let t' := start_monitor t in (st', t', TR rescue (alive t') false)
-    end.
+    let '(t', ob) := token_reply t r rescue in (st', t', ob).
 
 Fixpoint set_nth {A} (i : nat) (x : A) (l : list A) : list A :=
   match l, i with
@@ -225,6 +255,19 @@ Definition tstep (c : tcfg) (s : tstate) (o : top) : tstate * tobs :=
     | Some t => if (monitor t && negb (tdown s))%bool
                 then (mkTS (tstore s) (tdown s) (set_nth i (mkT true false) (tinsts s)), TU)
                 else (s, TU)
+    | None => (s, TU)
+    end
+  | TAllowF i now n rescue r =>
+    match nth_error (tinsts s) i with
+    | Some t =>
+      if negb (alive t) then (s, TR rescue false false)
+      else let '(t', ob) := token_reply t r rescue in (mkTS (tstore s) (tdown s) (set_nth i t' (tinsts s)), ob)
+    | None => (s, TU)
+    end
+  | TAllowC i now n rescue =>
+    match nth_error (tinsts s) i with
+    | Some t => (s, if alive t then TR false true false    (* errorx.In(err, ..., context.Canceled): refused, no fallback *)
+                    else TR rescue false false)
     | None => (s, TU)
     end
   end.
@@ -281,6 +324,19 @@ Definition sp_tstep (c : tcfg) (a : tspec) (o : top) : tspec * tobs :=
                 else (a, TU)
     | None => (a, TU)
     end
+  | TAllowF i now n rescue r =>
+    match nth_error (sp_insts a) i with
+    | Some t =>
+      if negb (alive t) then (a, TR rescue false false)
+      else let '(t', ob) := token_reply t r rescue in (mkSp (sp_bucket a) (sp_clock a) (sp_tdown a) (set_nth i t' (sp_insts a)), ob)
+    | None => (a, TU)
+    end
+  | TAllowC i now n rescue =>
+    match nth_error (sp_insts a) i with
+    | Some t => (a, if alive t then TR false true false    (* errorx.In(err, ..., context.Canceled): refused, no fallback *)
+                    else TR rescue false false)
+    | None => (a, TU)
+    end
   end.
 
 Fixpoint sp_trun (c : tcfg) (a : tspec) (ops : list top) : list tobs :=
@@ -294,7 +350,8 @@ Fixpoint sp_trun (c : tcfg) (a : tspec) (ops : list top) : list tobs :=
 Fixpoint twf (clock : Z) (ops : list top) : bool :=
   match ops with
   | [] => true
-  | TAllow _ now n _ _ :: ops' => (now =? clock) && (0 <=? n) && twf clock ops'
+  | TAllow _ now n _ _ :: ops' | TAllowF _ now n _ _ :: ops' | TAllowC _ now n _ :: ops' =>
+    (now =? clock) && (0 <=? n) && twf clock ops'
   | TAdvance ms :: ops' => (0 <=? ms) && twf (clock + ms) ops'
   | _ :: ops' => twf clock ops'
   end.
